@@ -1,5 +1,6 @@
 from contextlib import suppress
 from inspect import signature
+from types import SimpleNamespace
 import copy
 
 import numpy as np
@@ -136,7 +137,11 @@ class BoundConstraints:
         self.m = np.count_nonzero(self.xl > -np.inf) + np.count_nonzero(
             self.xu < np.inf
         )
-        self.pcs = PreparedConstraint(bounds, np.ones(bounds.lb.size))
+        self.pcs = (
+            PreparedConstraint(bounds, np.ones(self._xl.size))
+            if self._xl.size
+            else None
+        )
 
     @property
     def xl(self):
@@ -706,8 +711,13 @@ class Problem:
 
         # Set the bound constraints.
         self._orig_bounds = bounds
+        xl_free = bounds.xl[~self._fixed_idx]
+        xu_free = bounds.xu[~self._fixed_idx]
         self._bounds = BoundConstraints(
-            Bounds(bounds.xl[~self._fixed_idx], bounds.xu[~self._fixed_idx])
+            # scipy.optimize.Bounds rejects empty arrays (all variables fixed).
+            Bounds(xl_free, xu_free)
+            if xl_free.size
+            else SimpleNamespace(lb=xl_free, ub=xu_free)
         )
 
         # Set the initial guess.
@@ -732,6 +742,7 @@ class Problem:
         # Scale the problem if necessary.
         scale = (
             scale
+            and xl_free.size > 0
             and self._bounds.is_feasible
             and np.all(np.isfinite(self._bounds.xl))
             and np.all(np.isfinite(self._bounds.xu))
